@@ -354,7 +354,8 @@ bool kirsch_bounded_kfifo_queue<T, Policies...>::not_in_valid_region(uint64_t ta
   if (!wrap_around) {
     return tail_old < tail_current || head_current < tail_old;
   }
-  return tail_old < tail_current && head_current < tail_old;
+  // with a wrap-around the valid region is (head_current, end] + [begin, tail_current]
+  return tail_current < tail_old && tail_old < head_current;
 }
 } // namespace xenium
 #ifdef _MSC_VER
